@@ -284,7 +284,7 @@ func (u *Unit) Known(classifier string) bool { return u.known[classifier] }
 // a known classifier is counted, anything else becomes a violation with a
 // replay file. Returns true if it was a (new) violation.
 func (u *Unit) Report(f *Finding, c any) bool {
-	if f == nil {
+	if f == nil || capture.on {
 		return false
 	}
 	if strings.Contains(f.What, "no space left on device") || strings.Contains(f.What, "cannot allocate memory") {
@@ -377,6 +377,14 @@ func (u *Unit) inflightDone() {
 // this unit. Regression cases (saved shrunk failures, hostile constants) are
 // evaluated first, bypassing rapid. In replay mode only the saved case runs.
 func Rapid[C any](u *Unit, checks int, regress []C, draw func(*rapid.T) C, check func(C) *Finding) {
+	if capture.on {
+		// a fuzz target is collecting this unit's (draw, check) pair, see FuzzUnit
+		capture.props = append(capture.props, func(t *rapid.T) *Finding {
+			c := draw(t)
+			return Guard("fuzz-panic", func() *Finding { return check(c) })
+		})
+		return
+	}
 	if raw, ok := u.replayCase(); ok {
 		u.replayMode = true
 		var c C
@@ -444,6 +452,9 @@ func Rapid[C any](u *Unit, checks int, regress []C, draw func(*rapid.T) C, check
 
 // Each runs check over an enumerated (non-random) domain.
 func Each[C any](u *Unit, c C, check func(C) *Finding) {
+	if capture.on {
+		return
+	}
 	u.Eval(1)
 	u.Report(check(c), c)
 }
@@ -497,7 +508,7 @@ type statsFile struct {
 func (u *Unit) Close() {
 	u.mu.Lock()
 	defer u.mu.Unlock()
-	if u.closed {
+	if u.closed || capture.on {
 		return
 	}
 	u.closed = true
